@@ -228,6 +228,16 @@ def run_rest(ctx, PM, f, FLAG):
         ctx.floor("C12.6 obligations taken from the version gate", n6, 1)
     except CheckerError as e:
         raise CheckerError("C12.6 (the version gate of the parser could not be evaluated): %s" % e)
+    # ---- C12.8 a request that is refused ends the connection (its framing is unknown or it was not read to its end: what follows it
+    # cannot be told from its remains): the parser's error table (C10.1), taken over
+    import parser_rules as PR_
+    c8 = engine.Ctx("C12", "quick", facts, 0)
+    try:
+        PR_.trace_and_judge(c8, "C10.1", "C10.2")
+        n8 = engine.take_over(ctx, c8.obs, lambda o: o.rule == "C10.1" and o.key.endswith("|closes"), "C12.8")
+        ctx.floor("C12.8 obligations taken from the parser's error table", n8, 3)
+    except CheckerError as e:
+        raise CheckerError("C12.8 (the parser's error table could not be evaluated): %s" % e)
     # ---- C12.7 a connection that stays open goes on being served after a request whose body was not read: the drain takes exactly the bytes
     # owed, not the start of the next request (rules of C09.2)
     import drain_rules as DR
